@@ -176,6 +176,12 @@ def configurations(seed):
             for pk_ in (k, (k + 1) % 10 if k not in (9, 10) else 1):
                 cfg.append(('%s %d then probe %d' % (instr, k, pk_), FLAG_PROBE[pk_], dict(fl), None,
                             op(instr) + b'\x01' + bytes([k])))
+    # operands of more than one byte name the integer they encode: a zero-padded k is flag k, 256*h + k is not a flag at all
+    for k in range(11):
+        for instr, fl in (('UNSET_FLAG', {}), ('SET_FLAG', {k: False})):
+            for hi in ((0, 1, 255) if instr == 'SET_FLAG' else (0, 1)):
+                cfg.append(('%s x%02x%02x then probe %d' % (instr, hi, k, k), FLAG_PROBE[k], dict(fl), None,
+                            op(instr) + b'\x02' + bytes([hi, k])))
     for k, pname in ((7, 'DAS'), (9, 'DAS'), (9, 'SIGN_STACK'), (4, 'MASV'), (5, 'MASV'), (6, 'MASV'), (3, 'MASV'), (8, 'MASV')):
         cfg.append(('UNSET_FLAG %d then probe %s' % (k, pname), pname, {}, None, op('UNSET_FLAG') + b'\x01' + bytes([k])))
     return cfg
